@@ -469,6 +469,43 @@ def run_property(prop, cfg, tier, known, only=None):
         res["samples"].append(sample)
         say(f"  [{unit:>22}] paths={sample.get('paths')} obligations={len(sample['queries'])}")
 
+        # ---- how a request reaches the chain: the builder's future goes through Client::send, which takes the request's own stack
+        unit = "send_assembles_chain"
+        sample = {"unit": unit, "what": "RequestBuilder's IntoFuture async block(s) and Client::send's body: call lists", "queries": []}
+        try:
+            blocks_ = re.findall(r"^fn (request_builder::<impl at crux_http/src/request_builder\.rs:[\d: ]+>::into_future::\{closure#\d+\})\(_1: Pin<&mut \{async block[^\n]*\n(.*?)\n}\n", mir, re.M | re.S)
+            if not blocks_:
+                raise Unsupported("no async block found in RequestBuilder::into_future")
+            facts = []
+            for nm, body_ in blocks_:
+                cl = re.findall(r"= ([^=\n]*?)\((?:move|copy|const|\))", body_)
+                facts.append((f"{nm[-24:]}: the builder's future sends through Client::send (which runs the request's middleware)", any(re.match(r"(?:client::)?Client::send::<", c.strip()) for c in cl)))
+            fnS = one_fn(mir, r"^fn client::<impl at crux_http/src/client\.rs:[\d: ]+>::send::\{closure#0\}\(_1: Pin<&mut \{async fn body", "Client::send's body")
+            cl = [c.strip() for c in re.findall(r"= ([^=\n]*?)\((?:move|copy|const|\))", "\n".join(sum((fnS.blocks[b] for b in sorted(fnS.blocks, key=lambda x: int(x[2:]))), [])))]
+            idx = lambda pat: [i for i, c in enumerate(cl) if re.search(pat, c)]
+            take, ext_client, ext_req = idx(r"Request::take_middleware$"), idx(r"as Extend<Arc<dyn Middleware>>>::extend::<Cloned<"), idx(r"as Extend<Arc<dyn Middleware>>>::extend::<Vec<Arc<dyn Middleware>>>$")
+            new_, run_ = idx(r"middleware::Next::<'_>::new$"), idx(r"middleware::Next::<'_>::run$")
+            facts.append(("Client::send takes the request's own middleware stack exactly once", len(take) == 1))
+            facts.append(("the chain is the client's stack followed by the request's stack", len(ext_client) == 1 and len(ext_req) == 1 and ext_client[0] < ext_req[0]))
+            facts.append(("one chain is built over that list and run exactly once", len(new_) == 1 and len(run_) == 1 and ext_req and ext_req[0] < new_[0] < run_[0]))
+            sample["mir_function"] = fnS.name[-60:]
+            for text_, ok_ in facts:
+                res["obligations"] += 1
+                res["queries"] += 1
+                res["decided"] += 1
+                sample["queries"].append({"obligation": text_, "holds": bool(ok_)})
+                if ok_:
+                    res["discharged"] += 1
+                else:
+                    failed.append(f"{unit}: {text_}")
+            if all(ok_ for _, ok_ in facts):
+                witnesses.add(f"{unit}: {len(facts)} call-list facts hold")
+        except (Unsupported, KeyError, IndexError, AttributeError, ValueError, TypeError) as u:
+            failed.append(f"{unit}: not in the shape the encoding knows ({type(u).__name__}: {str(u)[:120]})")
+            sample["encoder_gap"] = f"{type(u).__name__}: {u}"
+        res["samples"].append(sample)
+        say(f"  [{unit:>22}] facts={len(sample['queries'])} hold={sum(1 for q in sample['queries'] if q['holds'])}")
+
         # ---- the Command API's builder: is the per-request middleware stack consulted at all?
         unit = "command_api_middleware"
         sample = {"unit": unit, "what": "crux_http::command::RequestBuilder::build's async block: the middleware attached with .middleware(..) takes part in sending the request", "queries": []}
